@@ -20,7 +20,7 @@ func init() {
 		Doc: "short forms build the struct from the like-named parameters and delegate to the typed method", Run: decl2})
 	register(&Rule{ID: "DECL-3", Props: []string{"C06", "C02"}, Floor: 14,
 		Doc: "XOpt.value and XArg.value call the same values.NewX(into, recv.Value), allocate iff into == nil and return that into", Run: decl3})
-	register(&Rule{ID: "DECL-4", Props: []string{"C18", "C10", "C16"}, Floor: 5,
+	register(&Rule{ID: "DECL-4", Props: []string{"C18", "C10", "C16", "C17"}, Floor: 5,
 		Doc: "option registration: one writer of the option index, a loop over all names, duplicate check (panic) before insert, one pointer for all names which is also the listed one, '-' prefix iff length 1", Run: decl4})
 	register(&Rule{ID: "DECL-5", Props: []string{"C18", "C16"}, Floor: 5,
 		Doc: "argument registration: insert dominated by the not-found edge and by a true validator result, both failing edges panic; the validator demands no lexer error, exactly one token, kind Arg", Run: decl5})
